@@ -202,14 +202,14 @@ def handleTrapdoor (op sch par key : String) (rest : List String) (rhs : String)
     | some C => withPrime C.n (.unsupported "n=0") fun n =>
       match parsePt C gs, parseFp n ls with
       | some g, some lam =>
-        let h : CPt C := lam • g
+        let hOf : Unit → CPt C := fun _ => lam • g
         match op, rest with
-        | "tkey", [] => spec "trapdoor-key" (showPt h) rhs
+        | "tkey", [] => spec "trapdoor-key" (showPt (hOf ())) rhs
         | "tcommit", [ms, ws] =>
           match parseFp n ms, parseFp n ws with
           | some m, some w =>
             let viaTrapdoor := pedTrapdoorCommit g lam m w
-            let viaPublic := pedCommit g h m w
+            let viaPublic := pedCommit g (hOf ()) m w
             if viaTrapdoor ≠ viaPublic then .unsupported "model: trapdoor commit ≠ public commit"
             else spec "trapdoor-commit" (showPt viaPublic) rhs
           | _, _ => .unsupported "tcommit args"
@@ -225,6 +225,7 @@ def handleTrapdoor (op sch par key : String) (rest : List String) (rhs : String)
           | some m, some w, some m', some w' =>
             -- the property: the SAME commitment opens to m' with the returned witness under the
             -- exported public key (g, h)
+            let h := hOf ()
             let c := pedCommit g h m w
             if !(genericOpen (pedCommit g h) c m' w') then
               .bad "equivocate" ("returned witness does not open the commitment to the new message; formula gives " ++ (pedEquivocate lam m w m').toHex)
@@ -238,21 +239,22 @@ def handleTrapdoor (op sch par key : String) (rest : List String) (rhs : String)
       match parseZU N ts with
       | none => .unsupported "t"
       | some t =>
-        let s : ZU N := t ^ (lam : Int)
+        let sOf : Unit → ZU N := fun _ => t ^ (lam : Int)
         match op, rest with
-        | "tkey", [] => spec "trapdoor-key" (natToHex s.v) rhs
+        | "tkey", [] => spec "trapdoor-key" (natToHex (sOf ()).v) rhs
         | "tcommit", [ms, ws] =>
           match hexToInt? ms, hexToInt? ws with
           | some m, some w =>
             -- the trapdoor path reduces the exponent modulo the group order it knows
             let viaTrapdoor : ZU N := t ^ ((m * (lam : Int) + w) % (ord : Int))
-            let viaPublic := intCommit s t m w
+            let viaPublic := intCommit (sOf ()) t m w
             if viaTrapdoor ≠ viaPublic then .unsupported "model: trapdoor commit ≠ public commit (is ord the order of t?)"
             else spec "trapdoor-commit" (natToHex viaPublic.v) rhs
           | _, _ => .unsupported "tcommit args"
         | "equiv", [ms, ws, m2s] =>
           match hexToInt? ms, hexToInt? ws, hexToInt? m2s, hexToInt? rhs with
           | some m, some w, some m', some w' =>
+            let s := sOf ()
             let c := intCommit s t m w
             let bound : Int := (N : Int) * (2 : Int) ^ 80
             if !(genericOpen (intCommit s t) c m' w') then
